@@ -101,10 +101,8 @@ fn main() {
     vcore::core_configs!(consts, r);
     if r.tier == Tier::Quick {
         consts!(r, d8, 5, BigRef);
-        consts!(r, d8, 17, BigRef);
         consts!(r, d16, 12, BigRef);
         consts!(r, d32, 10, BigRef);
-        consts!(r, d64, 5, BigRef);
         consts!(r, d64, 128, BigRef);
     }
     consts::aliases_check(r);
